@@ -115,7 +115,7 @@ fn families(thorough: bool) -> Vec<Fam> {
 		f.push(Fam::Nodes(4));
 	}
 	// the unmodified seeds (family prefix) come before their near-miss edits, so that the first reported case of a class is the smallest
-	f.extend([Fam::Decor, Fam::Decor2, Fam::Prefix, Fam::Shapes, Fam::NearMiss, Fam::Nest]);
+	f.extend([Fam::Decor, Fam::Decor2, Fam::Prefix, Fam::OddValues, Fam::Shapes, Fam::NearMiss, Fam::Nest]);
 	f
 }
 
@@ -200,14 +200,14 @@ pub fn run(rep: &mut Report) {
 		 (a) node vectors through SchemaMut::from_nodes: every vector of 0..={} nodes over the shape alphabet (Int, Null, Array/Map with every key, Union and Record with 0, 1 and 2 keys, Enum, Fixed; keys = every in-range index, len, len+1, usize::MAX, 1<<63, (1<<63)|1; two-key nodes: all in-range pairs plus a dangling key in either position{}), \
 		 plus 'decor': every node kind x every logical type incl. wrong ones (decimal scale {{0,1,28,29,u32::MAX}} x precision {{0,1,usize::MAX}}, unknown names) x names {{\"\", \".\", \"a.\", \".a\", \"a..b\", \"é.é\", '\"', a.b, X, ns.X}} x fixed sizes {{0,1,12,16,17,usize::MAX}} x enum symbol lists x record field-name lists, as root / under a union (shared) / under a namespaced record / as array items, plus 'decor2': pairs of decorated nodes under one union and one record; \
 		 operations per vector: Debug, serde_json::to_string, canonical_form_rabin_fingerprint, freeze; when freeze is Ok: Debug/json/fingerprint of the Schema, 11 hostile byte strings (incl. 16 KiB runs of 0x02 and 0x00 that drive unbounded descent) x 6 deserialize hints from a slice + 2 reader runs, 41 presentations serialized, the crate's own outputs decoded again. \
-		 (b) texts through str::parse::<SchemaMut>() (then the same operations) and str::parse::<Schema>(): JSON shapes to depth {} over 12 atoms at the 11 attribute positions the parser reads and 9 wrappers, near-miss documents (every value position of 30 seed schemas (10 of them with forward references in various positions) replaced by {} shapes, deleted, duplicated), every prefix of the 30 seeds, 26 odd documents, 8 nesting patterns x depths 1..=200{}. \
+		 (b) texts through str::parse::<SchemaMut>() (then the same operations) and str::parse::<Schema>(): JSON shapes to depth {} over 12 atoms at the 11 attribute positions the parser reads and 9 wrappers, near-miss documents (every value position of 30 seed schemas (10 of them with forward references in various positions) replaced by {} shapes, deleted, duplicated), every prefix of the 30 seeds, 26 odd documents, 12 lexically-valid-but-unmaterialisable JSON values (numbers beyond f64 such as 1e999, unpaired surrogate escapes, and harmless relatives) at the holes of 56 templates (ignored attributes of every node kind, nested objects/arrays of ignored attributes, attribute keys, every modelled position), 8 nesting patterns x depths 1..=200{}. \
 		 (c) scaling ladders, every rung executed in order and a ladder stopped at its first timeout: diamond chains n=1..=64 (text by nesting, text by forward reference, builder), reference chains and array chains of n in {:?} (text and builder), wide records/unions/enums of n in {:?} (text and builder). \
 		 Oracle: every operation returns Ok or Err within the horizon; a panic, a death by signal or a timeout is a violation attributed to the single (case, operation) by the runner's cursor and confirmed by re-running that operation alone. \
 		 Non-trivial: node vectors that are empty or contain a dangling key, a cycle, a shared node, a logical type, an unusual name or an extreme parameter, ladder vectors of > 2 nodes; texts other than the 30 unmodified seeds. Distinct on the rendered vector / the text.",
 		if thorough { 4 } else { 3 },
 		if thorough { "; 4-node vectors use a reduced alphabet: Int, Fixed, Array with keys {in-range, len}, Map with in-range keys, Union and Record with 0, 1 ({in-range, len}) and 2 (all in-range pairs) keys" } else { "" },
 		if thorough { 3 } else { 2 },
-		if thorough { "all depth-1 (about 1400)" } else { "30 small" },
+		if thorough { "all depth-1 (about 1400)" } else { "34 small" },
 		if thorough { " and 300, 10^3, 10^4, 10^5" } else { "" },
 		ops::CHAIN_RUNGS,
 		ops::WIDE_RUNGS
@@ -408,7 +408,7 @@ pub fn run(rep: &mut Report) {
 		need(rep, k);
 	}
 	let stat = |f: &str, k: &str| fam_stats.get(f).and_then(|m| m.get(k)).copied().unwrap_or(0);
-	for f in ["shapes", "nearmiss", "prefix", "nest"] {
+	for f in ["shapes", "nearmiss", "prefix", "nest", "oddvals"] {
 		if stat(f, "parse-mut:Ok") == 0 || stat(f, "parse-mut:Err") == 0 || stat(f, "parse-schema:Ok") == 0 {
 			guard_fail(&format!("vacuity guard: text family {f} did not see both accepted and rejected documents"));
 		}
